@@ -260,18 +260,14 @@ def real_upd_kwargs(u):
 
 # ---- select keys -----------------------------------------------------------------------
 def cselkeys(ks):
+    """the raw key strings: the MODEL parses them (DB.parse_selkeys); None = the legacy marker of an invalid key list"""
     if ks is None:
         return "None"
+    return f"(parse_selkeys {clist(ks, cstr)})"
 
-    def one(k):
-        if k == "time":
-            return "SKTime"
-        if k == "measurement":
-            return "SKMeas"
-        if k.startswith("tags."):
-            return f"(SKTag {cstr(k[5:])})"
-        return f"(SKField {cstr(k[7:])})"
-    return f"(Some {clist(ks, one)})"
+
+def selkey_valid(k):
+    return isinstance(k, str) and (k in ("time", "measurement") or (k.startswith("tags.") and len(k) > 5) or (k.startswith("fields.") and len(k) > 7))
 
 
 # ---- operations ------------------------------------------------------------------------
